@@ -25,6 +25,21 @@ def _key(e) -> str:
 
 
 class Canon(ast.NodeTransformer):
+    # `if not c: A else: B` is `if c: B else: A` (also for conditional expressions): one orientation, the positive one
+    def visit_If(self, node):
+        self.generic_visit(node)
+        import os
+        if os.environ.get("VERIF_NO_IF_ORIENT") != "1" and node.orelse and isinstance(node.test, ast.UnaryOp) and isinstance(node.test.op, ast.Not):
+            node.test, node.body, node.orelse = node.test.operand, node.orelse, node.body
+        return node
+
+    def visit_IfExp(self, node):
+        self.generic_visit(node)
+        import os
+        if os.environ.get("VERIF_NO_IF_ORIENT") != "1" and isinstance(node.test, ast.UnaryOp) and isinstance(node.test.op, ast.Not):
+            node.test, node.body, node.orelse = node.test.operand, node.orelse, node.body
+        return node
+
     def visit_BinOp(self, node):
         self.generic_visit(node)
         if isinstance(node.op, (ast.BitAnd, ast.BitOr)):
